@@ -804,12 +804,35 @@ def violations_of(kind, seed, xs=None, n_random=2):
     return wit, stats
 
 
+def affine_broadcast_violations():
+    """`Affine(loc, scale)` whose scale has a SMALLER broadcastable shape than loc (a scalar scale for a vector loc, a row for a matrix):
+    the log-det must still be log|det J| of the broadcast map — the sum runs over the event shape, not over the stored scale"""
+    wit = []
+    cases = [((3,), ()), ((2, 3), (3,)), ((2, 3), (2, 1)), ((4,), (1,))]
+    for ls, ss in cases:
+        loc = jnp.asarray(np.linspace(-1.0, 1.0, int(np.prod(ls)) or 1).reshape(ls))
+        scale = jnp.asarray(np.linspace(1.7, 2.9, int(np.prod(ss)) or 1).reshape(ss))
+        b = B.Affine(loc, scale)
+        x = jnp.asarray(np.linspace(0.3, 1.9, int(np.prod(b.shape)) or 1).reshape(b.shape))
+        J = np.asarray(jax.jacfwd(lambda v: b.transform(v).ravel())(x)).reshape(x.size, x.size)
+        want = float(np.linalg.slogdet(J)[1])
+        got = float(b.transform_and_log_det(x)[1])
+        goti = float(b.inverse_and_log_det(b.transform(x))[1])
+        if not (abs(got - want) <= 1e-9 * (1 + abs(want)) and abs(goti + want) <= 1e-9 * (1 + abs(want))):
+            wit.append(dict(key=f"affine-broadcast|loc{ls}|scale{ss}", kind="affine_broadcast", law="forward log-det == log|det jacobian(transform)| (scale broadcast against loc)",
+                            got=got, got_inverse=goti, want=want))
+    return wit
+
+
 def search(hints, tier, rng):
     """Jacobian oracle on real objects of every class, ranks 0-3."""
     quick = tier == "quick"
     per_kind = 2 if quick else 14
     base = rng.randrange(1, 10 ** 6)
     wit, stats = [], {}
+    wit += affine_broadcast_violations()
+    if wit:
+        return wit[:8]
     from props import oracles
     wit += [w for w in oracles.net_violations(rng, tier) if "log-det" in w["law"]]
     kinds = list(dict.fromkeys(KINDS))
@@ -845,5 +868,7 @@ def replay(w):
     if w.get("kind") == "bnafld":
         from props import bnafld
         return bnafld.replay_bnafld(w)
+    if w.get("kind") == "affine_broadcast":
+        return any(v["key"] == w["key"] for v in affine_broadcast_violations())
     wit, _ = violations_of(w["kind"], int(w["seed"]), xs=[np.asarray(w["x"], float)])
     return any(v["law"] == w["law"] for v in wit)
